@@ -820,6 +820,9 @@ fn enabled_c17(w: &RouterWorld, cfg: &Cfg, v: &mut Vec<(Act, u8)>) {
             v.push((Act::Pub { c: p, t: 0, qos: q, retain: false, empty: false, props: 0 }, 0));
         }
         v.push((Act::Burst { c: p, t: 0, qos: 0, n: 3 }, 0));
+        for t in 1..cfg.topics.len() as u8 {
+            v.push((Act::Pub { c: p, t, qos: 1, retain: false, empty: false, props: 0 }, 0));
+        }
         if cfg.variant == 2 {
             v.push((Act::Burst { c: p, t: 0, qos: 0, n: 220 }, 0));
         }
@@ -838,6 +841,14 @@ fn enabled_c17(w: &RouterWorld, cfg: &Cfg, v: &mut Vec<(Act, u8)>) {
                     v.push((Act::Unsub { c, f: 1 }, 0));
                 } else {
                     v.push((Act::Sub { c, f: 1, qos: 0 }, 0));
+                }
+            }
+            if cfg.filters.len() > 2 {
+                // a second filter under the same share name: an independent group
+                if active_sub(w, c, &cfg.filters[2]) {
+                    v.push((Act::Unsub { c, f: 2 }, 0));
+                } else {
+                    v.push((Act::Sub { c, f: 2, qos: q }, 0));
                 }
             }
             if !w.manual {
